@@ -19,7 +19,7 @@ class Case:
 def _prefix(steps, pre):
     out = []
     for st in steps:
-        st = dict(st)
+        st = {k: v for k, v in st.items() if not k.startswith("_")}
         if st.get("k") is not None:
             st["k"] = pre + st["k"]
         if "body" in st:
